@@ -341,7 +341,81 @@ func (c *Ctx) paramWrites() map[*ssa.Parameter]string {
 		}
 	}
 	c.pwCache = writes
+	c.retAlias = retAlias
 	return writes
+}
+
+// resultAliasRules: functions whose result is kept by the caller must not hand
+// back (a view of) an argument that lives in recycled memory.
+// (*wsflate.Extension).Negotiate is called by the zero-copy Upgrader with an
+// option that points into the pooled read buffer: its answer must be built
+// from the negotiator's own data, not from the offer.
+func resultAliasRules(c *Ctx, prop string) {
+	rule := prop + ".negotiate-result-fresh"
+	c.R.Rule(rule, 1, "Extension.Negotiate does not return (a view of) the offered option")
+	c.paramWrites()
+	f := c.method(rule, wsflate, "Extension", "Negotiate")
+	if f == nil || len(f.Params) < 2 {
+		return
+	}
+	if c.retAlias[f][1] {
+		c.R.Fail(rule, rule+"/Negotiate", c.P.FuncPos(f), "a result of Negotiate may be the offered option itself: with the zero-copy Upgrader the offer points into the pooled read buffer, so Handshake.Extensions is overwritten by a later handshake")
+	} else {
+		c.R.OK(rule, rule+"/Negotiate", c.P.FuncPos(f), "no result is derived from the offer (may-alias summary over the module)")
+	}
+}
+
+// sharedErrorRules: an error value that came out of a callback (a
+// *ConnectionRejectedError found by a type assertion) may be shared between
+// connections: nothing is stored through it.
+func sharedErrorRules(c *Ctx, prop string) {
+	rule := prop + ".callback-errors-read-only"
+	c.R.Rule(rule, 2, "nothing is stored through an error value obtained by a type assertion")
+	n := 0
+	for _, fn := range c.P.AllModuleFuncs() {
+		bad := ""
+		sites := 0
+		for _, b := range fn.Blocks {
+			for _, in := range b.Instrs {
+				if ta, ok := in.(*ssa.TypeAssert); ok && isErrorT(ta.X.Type()) {
+					sites++
+				}
+				st, ok := in.(*ssa.Store)
+				if !ok {
+					continue
+				}
+				v := st.Addr
+				for depth := 0; depth < 10; depth++ {
+					switch x := v.(type) {
+					case *ssa.FieldAddr:
+						v = x.X
+						continue
+					case *ssa.IndexAddr:
+						v = x.X
+						continue
+					case *ssa.Extract:
+						v = x.Tuple
+						continue
+					}
+					break
+				}
+				if ta, ok := v.(*ssa.TypeAssert); ok && isErrorT(ta.X.Type()) {
+					bad = c.P.Pos(st.Pos())
+				}
+			}
+		}
+		if sites == 0 {
+			continue
+		}
+		n++
+		key := rule + "/" + astFuncName(fn)
+		if bad == "" {
+			c.R.OK(rule, key, c.P.FuncPos(fn), "the asserted error is only read")
+		} else {
+			c.R.Fail(rule, key, bad, "a field of an error value that came out of a type assertion is written: a rejection error created once by the application and returned from a callback for many connections is changed under them (and concurrent handshakes race on it)")
+		}
+	}
+	c.R.Sites += n
 }
 
 func calleeName(cc *ssa.CallCommon) string {
